@@ -560,7 +560,15 @@ func c09One(cs c09Case, o *core.Outcome, g *c09Go) {
 	rms, rerr := c09Enumerate(re, cs.Input, cs.StartAt)
 	sms, serr := c09Enumerate(re, cs.Input, -1)
 	if serr != nil || (rerr != nil && !c09StartAtInvalid(cs)) {
-		o.Buckets = append(o.Buckets, "match-error")
+		e := serr
+		if e == nil {
+			e = rerr
+		}
+		msg := e.Error()
+		if len(msg) > 40 {
+			msg = msg[:40]
+		}
+		o.Buckets = append(o.Buckets, "match-error", "match-error: "+msg)
 		g.skip = true
 		return
 	}
